@@ -6,7 +6,8 @@ from concurrent.futures import ThreadPoolExecutor
 from queue import Queue
 slots = int(sys.argv[1]); jobs = sys.argv[2:]
 free = Queue()
-for i in range(slots): free.put(f"b{i}")
+import os
+for i in range(slots): free.put(f"b{os.getpid()}_{i}")
 def one(job):
     parts = job.split(":"); pid, d = parts[0], parts[1]; ids = [pid] + (parts[2].split(",") if len(parts) > 2 else [])
     s = free.get()
